@@ -162,6 +162,13 @@ func (c *context) getActionMethods() map[string][]*actionMethod {
 		if goMethod.Name() == OnBoundsMethodName {
 			// The parser implements _bounds.
 			// The generated parser should call it.
+			if !c.isValidOnBounds(goMethod) {
+				c.Errs.Errorf(
+					goMethod.Pos(),
+					"%v must have the signature func(r any, begin, end Token)",
+					OnBoundsMethodName)
+				continue
+			}
 			c.EmitBounds = true
 			continue
 		}
@@ -192,6 +199,19 @@ func (c *context) getActionMethods() map[string][]*actionMethod {
 		return nil
 	}
 	return actionMethods
+}
+
+// isValidOnBounds returns whether the generated call
+// p._onBounds(res any, begin Token, end Token) compiles against the method.
+func (c *context) isValidOnBounds(method *gotypes.Func) bool {
+	sig := method.Type().(*gotypes.Signature)
+	if sig.Variadic() || sig.Params().Len() != 3 {
+		return false
+	}
+	anyType := gotypes.Universe.Lookup("any").Type()
+	return gotypes.AssignableTo(anyType, sig.Params().At(0).Type()) &&
+		gotypes.AssignableTo(c.TokenType, sig.Params().At(1).Type()) &&
+		gotypes.AssignableTo(c.TokenType, sig.Params().At(2).Type())
 }
 
 func (c *context) getReduceTypeForGeneratedRule(
